@@ -160,6 +160,11 @@ deriving Repr, Inhabited
 structure State (K : Type) where
   store : Store K := {}
   objs : List Obj := []
+  /-- per object: the array its `_data_valid` (what the property `data` returns) was carved from.
+  The code keeps it in a separate attribute: the setter of `_data_full` re-creates it
+  (base.py:175-176) and `__setstate__` restores it (base.py:95-100).  "`data` is a live view of
+  the padded array" is the statement `dviews[i] = objs[i].view` (`DataLive`). -/
+  dviews : List View := []
 
 /-- position `p` of an object's padded array is a valid cell (raw arrays have no ghost cells) -/
 def validSel (G : List Grid) (o : Obj) (p : Nat) : Bool :=
@@ -180,17 +185,22 @@ variable {K : Type}
 
 /-! four primitive state changes; every operation is a composition of these -/
 
-/-- a new Python object looking at existing memory -/
-def pushObj (s : State K) (o : Obj) : State K := { s with objs := s.objs ++ [o] }
+/-- a new Python object looking at existing memory (`cls(grid, data=arr, with_ghost_cells=True)`:
+`self._data_full = data`, whose setter also sets `_data_valid`) -/
+def pushObj (s : State K) (o : Obj) : State K :=
+  { s with objs := s.objs ++ [o], dviews := s.dviews ++ [o.view] }
 
 /-- a new array together with a new Python object owning it; object id = `s.objs.length` -/
 def allocObj (s : State K) (cells : List (Option K)) (dt : DType) (o : Obj) : State K :=
   { store := s.store.alloc cells dt
-    objs := s.objs ++ [{ o with view := ⟨s.store.next, 0, cells.length⟩ }] }
+    objs := s.objs ++ [{ o with view := ⟨s.store.next, 0, cells.length⟩ }]
+    dviews := s.dviews ++ [⟨s.store.next, 0, cells.length⟩] }
 
-/-- `field._data_full = <other array>`: the object now looks at other memory -/
+/-- `field._data_full = <other array>` (base.py:147-176): the object now looks at other memory,
+and the setter re-creates `_data_valid` from the new array -/
 def relink (s : State K) (m : Nat) (v : View) : State K :=
-  { s with objs := s.objs.modify m (fun o => { o with view := v }) }
+  { s with objs := s.objs.modify m (fun o => { o with view := v })
+           dviews := s.dviews.modify m (fun _ => v) }
 
 /-- write through view `v` at the positions selected by `sel`; `g p old` is the new content -/
 def writeSel (s : State K) (v : View) (sel : Nat → Bool) (g : Nat → Option K → Option K) :
@@ -245,8 +255,10 @@ inductive Op (K : Type)
   /-- `h.set_ghost_cells(bc)`: the boundary-condition setter writes virtual points only; the
   values are an oracle (`none` = left alone) -/
   | setGhosts (h : Nat) (vals : List (Option K))
-  /-- `vector[c]`, `tensor[i, j]` with `c = i*dim + j` -/
+  /-- `vector[c]` (also: flat component `c` of a tensor) -/
   | component (h : Nat) (c : Nat)
+  /-- `tensor[i, j]`: component `tensorSlot dim i j = i*dim + j` (row-major) -/
+  | tcomponent (h : Nat) (i j : Nat)
   /-- `FieldCollection(fields, copy_fields=.., dtype=..)` -/
   | mkColl (hs : List Nat) (copyFields : Bool) (dt : Option DType)
   /-- `collection[i:j:k]`; `idx = range(*slice(i,j,k).indices(len(collection)))` -/
@@ -268,6 +280,19 @@ inductive Op (K : Type)
   | storeFrame (h : Nat) (into : Option DType)
   /-- `f = template.copy(); f.data = frame`: what `storage[i]` returns -/
   | loadFrame (template : Nat) (frame : Nat)
+  /-- `h.apply_operator(name, bc, out=out)` (datafield_base.py:935-963): the boundary condition
+  writes virtual points of the operand (`ghosts`: oracle values, `none` = left alone); the result
+  (`vals`: oracle values of the stencil) goes to the valid cells of a new
+  `out_cls(grid, "empty", dtype=h.dtype)` or of `out` -/
+  | applyOperator (h : Nat) (ghosts : List (Option K)) (outCls : Cls) (out : Option Nat)
+      (vals : List K)
+  /-- `cls(grid, data=f(h.data))`: `to_scalar`, `real`, `imag`, `conjugate` (base.py:461-471
+  `_unary_operation`, scalar/vectorial/tensorial `to_scalar`): a new padded array, valid cells
+  only, dtype re-derived from the data -/
+  | derive (h : Nat) (cls : Cls) (cplx : Bool) (vals : List K)
+  /-- `h.apply(func, out=out)` (base.py:716-722), `tensor.transpose()` (tensorial.py:416,431):
+  `out = h.copy()` unless given, then `out.data[...] = vals` -/
+  | applyFn (h : Nat) (out : Option Nat) (vals : List K)
 
 section
 variable {K : Type} [Add K] [Sub K] [Mul K] [Div K] [Neg K] [NatCast K] [DCast K]
@@ -602,6 +627,16 @@ def compObj (o : Obj) (c : Nat) : Obj :=
   { cls := .scalar, grid := o.grid, ncomp := 1,
     view := ⟨o.view.buf, o.view.off + c * (o.view.len / o.ncomp), o.view.len / o.ncomp⟩ }
 
+/-- row-major position of component `(i, j)` of a rank-2 tensor field: `self._data_full[i, j]` of a
+C-contiguous array of shape `(dim, dim, *grid)` (tensorial.py:149-156) -/
+def tensorSlot (dim i j : Nat) : Nat := i * dim + j
+
+/-- the component view on block `c` -/
+def componentAt (s : State K) (o : Obj) (c : Nat) : Except Err (State K) :=
+  if (o.cls == .vector || o.cls == .tensor) && decide (c < o.ncomp) then
+    .ok (s.pushObj (compObj o c))
+  else .error .badArg
+
 /-- storage/base.py:149-155: `not np.can_cast(field.dtype, storage.dtype, casting="same_kind")` -/
 def storeRejected (into : Option DType) (d : DType) : Bool :=
   match into with
@@ -634,10 +669,17 @@ def step (G : List Grid) (s : State K) (op : Op K) : Except Err (State K) :=
   | .component h c =>
     match getObj s h with
     | .error e => .error e
+    | .ok o => componentAt s o c
+  | .tcomponent h i j =>
+    match getObj s h with
+    | .error e => .error e
     | .ok o =>
-      if (o.cls == .vector || o.cls == .tensor) && decide (c < o.ncomp) then
-        .ok (s.pushObj (compObj o c))
-      else .error .badArg
+      match G[o.grid]? with
+      | none => .error .badArg
+      | some gr =>
+        if o.cls == .tensor && decide (i < gr.dim) && decide (j < gr.dim) then
+          componentAt s o (tensorSlot gr.dim i j)
+        else .error .badArg
   | .mkColl hs cp dt => mkColl s hs cp dt
   | .slice c idx =>
     match getObj s c with
@@ -685,6 +727,46 @@ def step (G : List Grid) (s : State K) (op : Op K) : Except Err (State K) :=
         match (scatter (selList G r) (s1.store.readView fr.view))[p]? with
         | some (some x) => x
         | _ => old)
+  | .applyOperator h ghosts outCls out vals =>
+    match getObj s h with
+    | .error e => .error e
+    | .ok o =>
+      if o.cls == .raw || o.cls == .coll then .error .badArg else
+      -- `self.set_ghost_cells(bc)`: virtual points of the operand
+      let s1 := s.writeSel o.view (fun p => !validSel G o p) (fun p old =>
+        match ghosts[p]? with | some (some x) => some x | _ => old)
+      match out with
+      | none => mkField G s1 outCls o.grid (some (s.store.dtOf o.view.buf)) false (.valid vals)
+      | some j =>
+        match getObj s1 j with
+        | .error e => .error e
+        | .ok oj =>
+          if oj.cls != outCls then .error .classMismatch
+          else if oj.grid != o.grid then .error .gridMismatch
+          else .ok (s1.writeSel oj.view (validSel G oj) (fun p old =>
+            match vals[p]? with | some x => some x | none => old))
+  | .derive h cls cplx vals =>
+    match getObj s h with
+    | .error e => .error e
+    | .ok o =>
+      if o.cls == .raw || o.cls == .coll then .error .badArg
+      else mkField G s cls o.grid none cplx (.valid vals)
+  | .applyFn h out vals =>
+    match getObj s h with
+    | .error e => .error e
+    | .ok o =>
+      if o.cls == .raw then .error .badArg else
+      match out with
+      | none => copyThenWrite G s o none (fun _ _ p old =>
+          match vals[p]? with | some x => some x | none => old)
+      | some j =>
+        match getObj s j with
+        | .error e => .error e
+        | .ok oj =>
+          if oj.cls != o.cls then .error .classMismatch
+          else if oj.grid != o.grid then .error .gridMismatch
+          else .ok (s.writeSel oj.view (validSel G oj) (fun p old =>
+            match vals[p]? with | some x => some x | none => old))
 
 /-- a whole history; failing operations are skipped (they leave the state unchanged) -/
 def run (G : List Grid) (s : State K) : List (Op K) → State K
